@@ -21,7 +21,7 @@
 
    Term expressions (what a Go expression such as seq.Bind(x, f) denotes):
      [k:"bind",v,f] [k:"bindrecv",v,f] [k:"delay",f] [k:"comb",a,b]
-     [k:"for",c,p,body] [k:"brk",body] [k:"sig",t] [k:"retval",v]
+     [k:"for",c,p,body] [k:"forpost",c,post,body] [k:"brk",body] [k:"sig",t] [k:"retval",v]
      v: [k:"lit",v] | [k:"x"]      c: None | [id]     p: None | [id]
    Thunks  f = [rl, pre, body]:  func(recv) Seq { r.R(rl,recv)?; pre...; body }
      pre : sequence of [k:"eff",id] | [k:"inc"] | [k:"panic"]
@@ -57,6 +57,9 @@ Construct(te, w) ==
     [] te.k = "comb"     -> [s |-> "comb", a |-> Construct(te.a, w), b |-> Construct(te.b, w)]
     [] te.k = "for"      -> [s |-> "for", c |-> te.c, p |-> te.p, body |-> Construct(te.body, w)]
     [] te.k = "brk"      -> [s |-> "brk", body |-> Construct(te.body, w)]
+    \* ForPost(cond, post, body) == For(cond, nil, <body, then post unless break / return>)
+    [] te.k = "forpost"  -> [s |-> "for", c |-> te.c, p |-> None,
+                             body |-> [s |-> "fpbody", post |-> Construct(te.post, w), body |-> Construct(te.body, w)]]
     [] te.k = "sig"      -> [s |-> "sig", t |-> te.t]
     [] te.k = "retval"   -> [s |-> "retval", v |-> EvalV(te.v, w)]
 
@@ -88,6 +91,7 @@ RunSeq(sv, k, w0) ==
          [] sv.s = "comb"  -> RunSeq(sv.a, <<[f |-> "comb", s2 |-> sv.b]>> \o k, w)
          [] sv.s = "for"   -> Loop(sv, k, TRUE, w)
          [] sv.s = "brk"   -> RunSeq(sv.body, <<[f |-> "brk"]>> \o k, w)      \* Breakable: body(c, k') with k' below
+         [] sv.s = "fpbody" -> RunSeq(sv.body, <<[f |-> "fp", post |-> sv.post]>> \o k, w)   \* ForPost's body wrapper
          [] sv.s = "sig"   -> CallK(k, sv.t, Zero, w)
          [] sv.s = "retval"-> CallK(k, "return", sv.v, w)
 
@@ -97,6 +101,7 @@ CallK(k, t, v, w0) ==
   CASE fr.f = "start" -> [w EXCEPT !.result = v]              \* Start's final continuation
     [] fr.f = "comb"  -> IF t = "normal" THEN RunSeq(fr.s2, rest, w) ELSE CallK(rest, t, v, w)
     [] fr.f = "brk"   -> IF t = "break" THEN CallK(rest, "normal", Zero, w) ELSE CallK(rest, t, v, w)
+    [] fr.f = "fp"    -> IF t \in {"normal", "continue"} THEN RunSeq(fr.post, rest, w) ELSE CallK(rest, t, v, w)
     [] fr.f = "for"   ->
          CASE t \in {"normal", "continue"} ->
                 \* recursive driver: loop(false) is one more activation on top of everything;
